@@ -222,10 +222,11 @@ def vector_case(draw):
     if pure_full:
         vf = st.tuples(full, vecflag).map(lambda x: ["mask", x[0], x[1]])
         atom = st.one_of(full, vf) if draw(st.booleans()) else st.one_of(vf, vf, vf, full)
+        plain_atom = full
     elif allow_full:
-        atom = st.one_of(full, sparse, sparse, one)
+        atom = plain_atom = st.one_of(full, sparse, sparse, one)
     else:
-        atom = st.one_of(sparse, sparse, one)
+        atom = plain_atom = st.one_of(sparse, sparse, one)
 
     flags = [["py", True], ["py", False], ["arr", True], ["arr", False], ["arr", True], ["arr", False]]
     flag = st.one_of(st.sampled_from(flags), vecflag, vecflag) if pure_full else st.sampled_from(flags)
@@ -239,7 +240,7 @@ def vector_case(draw):
         return st.one_of(
             st.tuples(st.sampled_from(["|", "|", "+"]), ch, ch).map(lambda x: ["or", x[0], x[1], x[2]]),
             st.tuples(st.sampled_from(["|", "|", "+"]), ch, ch).map(lambda x: ["or", x[0], x[1], x[2]]),
-            st.tuples(ch, atom).map(lambda x: ["atat", x[0], x[1]]),
+            st.tuples(ch, plain_atom).map(lambda x: ["atat", x[0], x[1]]),
             switch,
             st.tuples(ch, flag).map(lambda x: ["mask", x[0], x[1]]),
             st.tuples(ch, VSEL, st.sampled_from(["chm", "sel"])).map(lambda x: ["filter", x[0], x[1], x[2]]),
